@@ -457,6 +457,10 @@ func derivesFromWire(v ssa.Value, depth int) bool {
 		}
 	case *ssa.UnOp:
 		if x.Op == token.MUL {
+			// captured / spilled local with a single store
+			if c := canon(x); c != ssa.Value(x) {
+				return derivesFromWire(c, depth+1)
+			}
 			if ia, ok := x.X.(*ssa.IndexAddr); ok {
 				if s, ok := ia.X.Type().Underlying().(*types.Slice); ok {
 					if b, ok := s.Elem().Underlying().(*types.Basic); ok && b.Kind() == types.Uint8 {
